@@ -1,4 +1,4 @@
-Require Import Base Serde.
+Require Import Base Extracted Serde.
 From Coq Require Import Sorting.Permutation.
 Local Open Scope N_scope.
 
@@ -130,3 +130,60 @@ Proof.
   - cbn [map]. rewrite <- E, tidy_list_idempotent. f_equal. exact IH.
 Qed.
 End TidyProofs.
+
+(* ---- policy keys ---- *)
+Lemma split_colon_app n r : no_chr COLON n = true -> split_colon (n ++ COLON :: r) = Some (n, r).
+Proof.
+  unfold no_chr. induction n as [|c n IH]; intros H; cbn [app split_colon].
+  - rewrite N.eqb_refl. reflexivity.
+  - cbn [existsb] in H. apply negb_true_iff in H. apply orb_false_elim in H. destruct H as [H1 H2].
+    rewrite N.eqb_sym in H1. rewrite H1. rewrite IH by (apply negb_true_iff; exact H2). reflexivity.
+Qed.
+Lemma split_colon_none n : no_chr COLON n = true -> split_colon n = None.
+Proof.
+  unfold no_chr. induction n as [|c n IH]; intros H; cbn [split_colon]; [reflexivity|].
+  cbn [existsb] in H. apply negb_true_iff in H. apply orb_false_elim in H. destruct H as [H1 H2].
+  rewrite N.eqb_sym in H1. rewrite H1. rewrite IH by (apply negb_true_iff; exact H2). reflexivity.
+Qed.
+Lemma split_at_app s r : no_chr AT s = true -> split_at (s ++ AT :: r) = (s, Some r).
+Proof.
+  unfold no_chr. induction s as [|c s IH]; intros H; cbn [app split_at].
+  - rewrite N.eqb_refl. reflexivity.
+  - cbn [existsb] in H. apply negb_true_iff in H. apply orb_false_elim in H. destruct H as [H1 H2].
+    rewrite N.eqb_sym in H1. rewrite H1. rewrite IH by (apply negb_true_iff; exact H2). reflexivity.
+Qed.
+Lemma split_at_none s : no_chr AT s = true -> split_at s = (s, None).
+Proof.
+  unfold no_chr. induction s as [|c s IH]; intros H; cbn [split_at]; [reflexivity|].
+  cbn [existsb] in H. apply negb_true_iff in H. apply orb_false_elim in H. destruct H as [H1 H2].
+  rewrite N.eqb_sym in H1. rewrite H1. rewrite IH by (apply negb_true_iff; exact H2). reflexivity.
+Qed.
+
+Theorem vetver_roundtrip v : POLICY_KEY_USES_FULL_VERSION = true -> no_chr AT (vv_semver v) = true ->
+  parse_vetver (show_vetver v) = Some v.
+Proof.
+  intros K H. unfold show_vetver, parse_vetver. rewrite K. destruct v as [s [r|]]; cbn [vv_semver vv_git] in *.
+  - change (GIT_TAG ++ r) with (AT :: [103; 105; 116; 58] ++ r). rewrite split_at_app by exact H.
+    cbn [strip_prefix app]. rewrite !N.eqb_refl. reflexivity.
+  - rewrite app_nil_r, split_at_none by exact H. reflexivity.
+Qed.
+
+Theorem pkey_roundtrip name ver : POLICY_KEY_USES_FULL_VERSION = true ->
+  no_chr COLON name = true -> (forall v, ver = Some v -> no_chr AT (vv_semver v) = true) ->
+  pkey_decode (pkey_encode name ver) = Some (name, ver).
+Proof.
+  intros K Hn Hv. unfold pkey_encode, pkey_decode. destruct ver as [v|].
+  - rewrite split_colon_app by exact Hn. rewrite vetver_roundtrip; [reflexivity|exact K|apply Hv; reflexivity].
+  - rewrite split_colon_none by exact Hn. reflexivity.
+Qed.
+
+(* hence distinct (name, version) pairs never share a key: no entry can be lost by a collision *)
+Theorem pkey_injective n1 v1 n2 v2 : POLICY_KEY_USES_FULL_VERSION = true ->
+  no_chr COLON n1 = true -> no_chr COLON n2 = true ->
+  (forall v, v1 = Some v -> no_chr AT (vv_semver v) = true) -> (forall v, v2 = Some v -> no_chr AT (vv_semver v) = true) ->
+  pkey_encode n1 v1 = pkey_encode n2 v2 -> n1 = n2 /\ v1 = v2.
+Proof.
+  intros K H1 H2 Hv1 Hv2 E.
+  pose proof (pkey_roundtrip n1 v1 K H1 Hv1) as R1. pose proof (pkey_roundtrip n2 v2 K H2 Hv2) as R2.
+  rewrite E in R1. rewrite R1 in R2. inversion R2. auto.
+Qed.
